@@ -110,7 +110,7 @@ Ltac tailslice kw :=
     rewrite Et2; cbn [bind]; rewrite Ep
   end.
 
-Lemma lex_header_param_det l res : lex_header_param ul ud inp1 n1 base l = Ok res -> l_pos (snd res) + M <= h -> fst res <> LDone ->
+Lemma lex_header_param_det l res : lex_header_param ul ud inp1 n1 base l = Ok res -> l_pos (snd res)+ m_header <= h -> fst res <> LDone ->
   lex_header_param ul ud inp2 n2 base l = Ok res.
 Proof using All.
   intros H Hb Hl. unfold lex_header_param, skip_space in *. pose proof kw_lens. start H; try solve [dead].
